@@ -238,6 +238,15 @@ def check_case(case, ctx):
     use_cli = bool(case.get("cli")) and not case["serial"]      # the command line always cooks in parallel
     if use_cli:
         ctx.label("cli")
+    if rec["kind"] in ("user", "callable") and len(fields) % 2 == 0:
+        # second use: the output directory already holds an older result (another recipe, every field kept)
+        ctx.label("output-directory-holds-an-older-result")
+        with open("recipe_old.py", "w") as fh:
+            fh.write("import numpy as np\n\ndef recipe(field_indexes, box_array):\n    \"\"\"old_a old_b old_c\"\"\"\n    return np.stack([box_array[..., 0]] * 3, axis=-1)\n")
+        try:
+            qcall(lambda: Chef("src", recipe="recipe_old.py", outfile="out", serial=True, kept_fields=" ".join(fields)).cook())
+        except Exception as e:
+            return [f"chef raised {type(e).__name__}: {str(e)[:300]} (older result)"]
     pools.set_schedule(None if case["serial"] else case["sched"])
     try:
         if use_cli:
